@@ -15,6 +15,10 @@
 //	stored    parseTestResultsFile / readTestResultsDir on a file or directory at the real target.TestResultsFile() path
 //	twice     the e2e targets run by a SECOND `plz test` of the unchanged repository (cached path), totals and result
 //	          XML of both invocations compared with each other and with the model
+//	empty     (inside flake / e2e / stored) attempts that leave a results file of length zero - alone, or as one shard of
+//	          a results directory next to passing shards - with exit status 0
+//	args      gentest targets whose runner executes a SUBSET of the cases when given an argument, run by four consecutive
+//	          invocations of the real binary: `plz test //a:all sub`, `plz test //a:all`, then both again
 package main
 
 import (
@@ -155,6 +159,9 @@ func coqDatum(d Datum) string {
 			ts = append(ts, lib.Pair(lib.Str(g.Name), r))
 		}
 		return lib.App("DGo", lib.List(ts))
+	}
+	if d.Text == "" {
+		return "DEmpty" // a results file of length zero
 	}
 	return "DBad"
 }
@@ -655,6 +662,252 @@ func shapesPresent(sc Scenario, d dev, ids []ident) bool {
 		}
 	}
 	return true
+}
+
+// hasEmpty: the attempt left a results file of length zero
+func hasEmpty(a Attempt) bool {
+	for _, d := range a.Data {
+		if d.Kind == "bad" && d.Text == "" {
+			return true
+		}
+	}
+	return false
+}
+
+// judgeEmpty: an empty results file says nothing about the cases of the shard that should have written it.  When
+// every attempt inside the allowance left one, no executed attempt vouches for the target: it must not be reported
+// as passing, whatever the exit status and whatever the other shards say.
+func judgeEmpty(c *lib.Ctx, where string, sc Scenario, got counts, passed bool) {
+	k := min(engineFlaky(sc), len(sc.Attempts))
+	if k == 0 {
+		return
+	}
+	for i := 0; i < k; i++ {
+		if !hasEmpty(sc.Attempts[i]) {
+			return
+		}
+	}
+	c.Oracle()
+	if passed {
+		c.Fail("empty-results-file-ignored", fmt.Sprintf("%s: every attempt of target %s (flaky=%d) left an empty results file, yet it is reported as passing with tests/passed/flakes/failed/errored/skipped=%v",
+			where, sc.Name, sc.Flaky, got), sc.js())
+	}
+}
+
+// genEmptyScenario: every attempt writes 0-3 shards of passing / skipped cases and one empty file, mostly with exit status 0
+func genEmptyScenario(r *lib.Rng, name string) Scenario {
+	sc := Scenario{Name: name, Flaky: lib.Pick(r, []int{1, 1, 1, 2})}
+	for a := 0; a < sc.Flaky; a++ {
+		at := Attempt{ExitNonzero: r.Chance(1, 6)}
+		nsh := lib.Pick(r, []int{0, 1, 2, 2, 3})
+		pos := r.Intn(nsh + 1)
+		for j := 0; j <= nsh; j++ {
+			if j == pos {
+				at.Data = append(at.Data, Datum{Kind: "bad", Text: ""})
+			}
+			if j == nsh {
+				break
+			}
+			if r.Bool() {
+				cs := []GoCase{{Name: fmt.Sprintf("TestS%dA", j), Res: "pass"}}
+				if r.Bool() {
+					cs = append(cs, GoCase{Name: fmt.Sprintf("TestS%dB", j), Res: lib.Pick(r, []string{"pass", "skip"})})
+				}
+				d := Datum{Kind: "go", Go: cs, Style: r.Intn(16)}
+				render(&d)
+				at.Data = append(at.Data, d)
+			} else {
+				at.Data = append(at.Data, xmlDatum(r.Intn(4096), XCase{Class: lib.Pick(r, classPool), Name: fmt.Sprintf("s%d %s", j, lib.Pick(r, namePool))},
+					XCase{Class: "c", Name: fmt.Sprintf("s%d_b", j), Skip: r.Chance(1, 3)}))
+			}
+		}
+		sc.Attempts = append(sc.Attempts, at)
+	}
+	return sc
+}
+
+// restrict: the scenario a test runner executes when told to run only the cases in keep (the exit status follows
+// the cases that ran)
+func restrict(sc Scenario, keep map[[2]string]bool) Scenario {
+	out := Scenario{Name: sc.Name, NoOutput: sc.NoOutput, Flaky: sc.Flaky, Domain: sc.Domain}
+	for _, a := range sc.Attempts {
+		na := Attempt{}
+		for _, d := range a.Data {
+			nd := Datum{Kind: d.Kind, Style: d.Style}
+			for _, g := range d.Go {
+				if keep[[2]string{"", g.Name}] {
+					nd.Go = append(nd.Go, g)
+					na.ExitNonzero = na.ExitNonzero || g.Res == "fail"
+				}
+			}
+			for _, t := range d.Tops {
+				nt := XTop{Kind: t.Kind}
+				for _, x := range t.Suites {
+					nx := XSuite{Name: x.Name}
+					for _, k := range x.Cases {
+						if keep[[2]string{k.Class, k.Name}] {
+							nx.Cases = append(nx.Cases, k)
+							na.ExitNonzero = na.ExitNonzero || k.Fail || k.Err
+						}
+					}
+					nt.Suites = append(nt.Suites, nx)
+				}
+				nd.Tops = append(nd.Tops, nt)
+			}
+			render(&nd)
+			na.Data = append(na.Data, nd)
+		}
+		out.Attempts = append(out.Attempts, na)
+	}
+	return out
+}
+
+// an argument pair: the complete scenario of a target and what its runner executes when given an argument
+type argPair struct{ Full, Sub Scenario }
+
+func genArgPair(r *lib.Rng, name string) argPair {
+	for {
+		full := genScenarioC(r, name, false)
+		ids := [][2]string{}
+		seen := map[[2]string]bool{}
+		for _, k := range attemptCases(full.Attempts[0]) {
+			id := [2]string{k.Class, k.Name}
+			if !seen[id] {
+				seen[id] = true
+				ids = append(ids, id)
+			}
+		}
+		if len(ids) < 2 {
+			continue
+		}
+		// keep a non-empty proper subset; two times in three the cases that pass in the first attempt (the restricted
+		// run then passes and would be worth storing)
+		keep := map[[2]string]bool{}
+		if r.Chance(2, 3) {
+			for _, k := range attemptCases(full.Attempts[0]) {
+				if len(k.Outs) == 1 && k.Outs[0] == "pass" {
+					keep[[2]string{k.Class, k.Name}] = true
+				}
+			}
+		}
+		if len(keep) == 0 || len(keep) == len(ids) {
+			keep = map[[2]string]bool{}
+			lib.Shuffle(r, ids)
+			for _, id := range ids[:r.Range(1, len(ids)-1)] {
+				keep[id] = true
+			}
+		}
+		return argPair{full, restrict(full, keep)}
+	}
+}
+
+func forcedArgPairs() []argPair {
+	mk := func(name string, flaky int, keep []string, atts ...[]GoCase) argPair {
+		full := Scenario{Name: name, Flaky: flaky, Domain: true}
+		for _, cs := range atts {
+			bad := false
+			for _, k := range cs {
+				bad = bad || k.Res == "fail"
+			}
+			full.Attempts = append(full.Attempts, Attempt{ExitNonzero: bad, Data: []Datum{goDatum(cs...)}})
+		}
+		km := map[[2]string]bool{}
+		for _, k := range keep {
+			km[[2]string{"", k}] = true
+		}
+		return argPair{full, restrict(full, km)}
+	}
+	return []argPair{
+		// the literal sequence: TestA passes, TestB fails; `-- TestA` first
+		mk("gab", 1, []string{"TestA"}, []GoCase{{Name: "TestA", Res: "pass"}, {Name: "TestB", Res: "fail"}}),
+		// every case passes: the complete run is stored and later re-read; the restricted run in between must not replace it
+		mk("gok", 1, []string{"TestB"}, []GoCase{{Name: "TestA", Res: "pass"}, {Name: "TestB", Res: "pass"}, {Name: "TestC", Res: "skip"}}),
+		// the selected case passes at once, the complete test needs its retry
+		mk("gfl", 2, []string{"TestA"}, []GoCase{{Name: "TestA", Res: "pass"}, {Name: "TestB", Res: "fail"}},
+			[]GoCase{{Name: "TestA", Res: "pass"}, {Name: "TestB", Res: "pass"}}),
+	}
+}
+
+var summaryLineA = regexp.MustCompile(`^//a:(\S+) (\d+) tests? run[^;]*; (\d+) passed(?:, (\d+) errored)?(?:, (\d+) failed)?(?:, (\d+) skipped)?(?:, (\d+) flakes?)?`)
+var failLineA = regexp.MustCompile(`^Fail: //a:(\S+) `)
+
+// the invocations of the args stream: true = `plz test //a:all sub`, false = `plz test //a:all`
+var argHistory = []bool{true, false, true, false}
+
+// runArgsE2E writes the pairs as gentest targets of package a whose runner copies the results of the complete scenario,
+// or of the restricted one when it is given an argument, and runs the invocations of argHistory in one repository.
+func runArgsE2E(c *lib.Ctx, plz string, pairs []argPair) ([]map[string]*e2eResult, error) {
+	root := filepath.Join(c.Out, "e2e-args-repo")
+	os.RemoveAll(root)
+	defer os.RemoveAll(root)
+	state := filepath.Join(root, "state")
+	if err := os.MkdirAll(filepath.Join(root, "a"), 0o755); err != nil {
+		return nil, err
+	}
+	cfg := "[build]\npath = /usr/local/bin:/usr/bin:/bin\n[cache]\ndir = " + filepath.Join(root, "cache") + "\n[test]\ntimeout = 120\n"
+	os.WriteFile(filepath.Join(root, ".plzconfig"), []byte(cfg), 0o644)
+	var b strings.Builder
+	for _, p := range pairs {
+		for v, sc := range map[string]Scenario{"f": p.Full, "s": p.Sub} {
+			for i, a := range sc.Attempts {
+				if len(a.Data) != 1 {
+					return nil, fmt.Errorf("args stream: attempt with %d result files", len(a.Data))
+				}
+				os.WriteFile(filepath.Join(root, "a", fmt.Sprintf("%s_%s_%d.res", sc.Name, v, i+1)), []byte(a.Data[0].Text), 0o644)
+				code := "0"
+				if a.ExitNonzero {
+					code = "1"
+				}
+				os.WriteFile(filepath.Join(root, "a", fmt.Sprintf("%s_%s_%d.exit", sc.Name, v, i+1)), []byte(code+"\n"), 0o644)
+			}
+		}
+		name := p.Full.Name
+		cnt := filepath.Join(state, name)
+		// test arguments are appended to the command: they become the arguments of run
+		cmd := fmt.Sprintf(`run() { n=$(cat %s 2>/dev/null || echo 0); n=$((n+1)); echo $n > %s; v=f; if [ -n "$1" ]; then v=s; fi; `, cnt, cnt) +
+			fmt.Sprintf(`cp a/%s_${v}_${n}.res $RESULTS_FILE; exit $(cat a/%s_${v}_${n}.exit); }; run`, name, name)
+		fmt.Fprintf(&b, "gentest(\n    name = %q,\n    test_cmd = %q,\n    data = glob([%q]),\n    flaky = %d,\n)\n", name, cmd, name+"_*", p.Full.Flaky)
+	}
+	os.WriteFile(filepath.Join(root, "a", "BUILD"), []byte(b.String()), 0o644)
+	atoi := func(s string) int { n, _ := strconv.Atoi(s); return n }
+	all := []map[string]*e2eResult{}
+	for inv, withArgs := range argHistory {
+		os.RemoveAll(state)
+		os.MkdirAll(state, 0o755)
+		args := []string{"300", plz, "test", "--plain_output", "--detailed", "--keep_going", "//a:all"}
+		if withArgs {
+			args = append(args, "sub")
+		}
+		cmd := exec.Command("timeout", args...)
+		cmd.Dir = root
+		cmd.Env = append(os.Environ(), "HOME="+root)
+		out, _ := cmd.CombinedOutput()
+		res := map[string]*e2eResult{}
+		for _, p := range pairs {
+			res[p.Full.Name] = &e2eResult{passed: true}
+		}
+		for _, line := range strings.Split(ansi.ReplaceAllString(string(out), ""), "\n") {
+			if m := failLineA.FindStringSubmatch(line); m != nil && res[m[1]] != nil {
+				res[m[1]].passed = false
+			}
+			if m := summaryLineA.FindStringSubmatch(line); m != nil && res[m[1]] != nil {
+				r := res[m[1]]
+				r.seen = true
+				r.cached = strings.Contains(line, "[cached]")
+				r.n = counts{atoi(m[2]), atoi(m[3]), atoi(m[7]), atoi(m[5]), atoi(m[4]), atoi(m[6])}
+			}
+		}
+		if !strings.Contains(string(out), "test target") {
+			return nil, fmt.Errorf("args stream, invocation %d: no summary in the output of plz test:\n%s", inv+1, tail(string(out), 3000))
+		}
+		for name, r := range res {
+			if !r.seen {
+				return nil, fmt.Errorf("args stream, invocation %d: no summary line for target %s:\n%s", inv+1, name, tail(string(out), 3000))
+			}
+		}
+		all = append(all, res)
+	}
+	return all, nil
 }
 
 func (sc Scenario) js() any {
@@ -1359,6 +1612,17 @@ func forcedScenarios(thorough bool) []Scenario {
 			xmlDatum(2048, XCase{Class: "c", Name: "one"}, XCase{Class: "c", Name: "two", Skip: true}),
 			goDatum(GoCase{Name: "TestD", Res: "pass"})}}}},
 	}
+	empty := Datum{Kind: "bad", Text: ""}
+	out = append(out,
+		// a single empty results file, exit status 0
+		Scenario{Name: "fempty", Flaky: 1, Attempts: []Attempt{{Data: []Datum{empty}}}},
+		// three shards, the middle one died right after creating its file, exit status 0
+		Scenario{Name: "fshard", Flaky: 1, Attempts: []Attempt{{Data: []Datum{
+			goDatum(GoCase{Name: "TestA", Res: "pass"}), empty, goDatum(GoCase{Name: "TestC", Res: "pass"})}}}},
+		// the same on both attempts of a flaky target, the empty shard first / last
+		Scenario{Name: "fshard2", Flaky: 2, Attempts: []Attempt{
+			{Data: []Datum{empty, xmlDatum(0, XCase{Class: "c", Name: "x"})}},
+			{Data: []Datum{xmlDatum(0, XCase{Class: "c", Name: "x"}), empty}}}})
 	if thorough {
 		// the literal regression: `exit 1` on every attempt, no results file; 255 attempts (about 20 s per invocation)
 		sc := Scenario{Name: "f256x", Flaky: 256}
@@ -1419,6 +1683,9 @@ func main() {
 			"real target.TestResultsFile() path through parseTestResultsFile / readTestResultsDir. Every e2e target is run by two consecutive " +
 			"`plz test` invocations of the unchanged repository (second = cached path or the same attempts again); totals, [cached] marker and " +
 			"the <testcase> elements of --test_results_file of both are compared with each other and with the model. " +
+			"Empty files: every eighth in-process scenario, three forced and some random e2e targets and an eighth of the stored entries have a results file of length zero " +
+			"(alone or as one shard among passing shards, exit status mostly 0). Arguments: 12 (thorough 63) further gentest targets whose runner executes a subset of the " +
+			"cases when given an argument, run by `plz test //a:all sub`, `plz test //a:all` and both again in one repository, each report compared with the model of the history. " +
 			"distinct = distinct inputs; non-trivial = at least two cases or two executions, not all passing")
 
 		// --- 1. dispatch
@@ -1682,6 +1949,7 @@ func main() {
 				judge(c, "in-process", sc, n, ok)
 				judgeFailedCases(c, "in-process", sc, got)
 			}
+			judgeEmpty(c, "in-process", sc, n, ok)
 		}
 		for _, sc := range forcedScenarios(false) {
 			if sc.Flaky <= 255 {
@@ -1695,6 +1963,9 @@ func main() {
 			if i%8 == 7 {
 				flakeCase(genScenarioC(r, "col"+strconv.Itoa(i), true))
 				c.Hist("flake_scenario", "colliding-joined-form")
+			} else if i%8 == 3 {
+				flakeCase(genEmptyScenario(r, "emp"+strconv.Itoa(i)))
+				c.Hist("flake_scenario", "empty-results-file")
 			} else if r.Chance(1, 4) {
 				flakeCase(genWildScenario(r, "wild"+strconv.Itoa(i)))
 			} else {
@@ -1783,6 +2054,16 @@ func main() {
 				c.Fail("stored-results-not-read", fmt.Sprintf("readTestResultsDir(%s) returned %d files (err=%v), %d were written", target.TestResultsFile(), len(data), rerr, len(sorted)), js)
 				return
 			}
+			// ... an empty file among them is never skipped: the stored results do not parse
+			for _, e := range sorted {
+				if e.D.Kind == "bad" && e.D.Text == "" {
+					c.Oracle()
+					if perr == nil {
+						c.Fail("empty-results-file-ignored", fmt.Sprintf("parseTestResultsFile(%s): entry %s is empty, yet the results parse as %v", target.TestResultsFile(), e.Name, got), js)
+					}
+					break
+				}
+			}
 			// ... and the cases reported from them are the cases written (flat, well-marked documents only)
 			want, dom := []ICase{}, true
 			for _, e := range sorted {
@@ -1805,7 +2086,9 @@ func main() {
 			scs := forcedScenarios(c.Scale(0, 1) == 1)
 			for i := 0; i < c.Scale(24, 300); i++ {
 				r := c.Rng.Fork()
-				if i%5 == 4 {
+				if i%12 == 7 {
+					scs = append(scs, genEmptyScenario(r, "m"+strconv.Itoa(i)))
+				} else if i%5 == 4 {
 					sc := genWildScenario(r, "w"+strconv.Itoa(i))
 					sc.NoOutput = false
 					scs = append(scs, sc)
@@ -1839,6 +2122,8 @@ func main() {
 					judge(c, "plz test", sc, r.n, r.passed)
 				}
 				judgeUnfinished(c, "plz test", sc, r.n, r.passed)
+				judgeEmpty(c, "plz test", sc, r.n, r.passed)
+				judgeEmpty(c, "plz test, second invocation", sc, r2.n, r2.passed)
 				// the second invocation of the unchanged repository
 				js2 := map[string]any{"scenario": sc.js(), "first": map[string]any{"counts": r.n, "passed": r.passed, "cases": r.xml},
 					"second": map[string]any{"counts": r2.n, "passed": r2.passed, "cached": r2.cached, "cases": r2.xml}, "via": "plz test, twice"}
@@ -1878,7 +2163,65 @@ func main() {
 					}
 				}
 			}
-			c.Note("e2e: %d gentest targets (8 forced: colliding pairs, retry, no results file, go output, results directory, flaky = 256, unfinished go case) run by `plz test //t:all --detailed` TWICE in one repository; %d were reported [cached] by the second invocation",
+			// --- 7. invocations with and without test arguments
+			pairs := forcedArgPairs()
+			for i := 0; i < c.Scale(9, 60); i++ {
+				pairs = append(pairs, genArgPair(c.Rng.Fork(), "p"+strconv.Itoa(i)))
+			}
+			hist, err := runArgsE2E(c, plz, pairs)
+			if err != nil {
+				panic(err)
+			}
+			nargCached := 0
+			for _, p := range pairs {
+				invs, obs, jobs := []string{}, []string{}, []any{}
+				for k, withArgs := range argHistory {
+					r := hist[k][p.Full.Name]
+					sc := p.Full
+					if withArgs {
+						sc = p.Sub
+					}
+					invs = append(invs, lib.App("mkInv", lib.Bool(withArgs), coqAttempts(sc.Attempts)))
+					obs = append(obs, lib.Pair(lib.Pair(coqCounts(r.n), lib.Bool(r.passed)), lib.Bool(r.cached)))
+					jobs = append(jobs, map[string]any{"with_arguments": withArgs, "counts": r.n, "passed": r.passed, "cached": r.cached})
+				}
+				js := map[string]any{"complete": p.Full.js(), "with_argument": p.Sub.js(), "invocations": jobs, "via": "plz test //a:all [sub], four invocations"}
+				c.Case(lib.App("CHist", lib.Str(p.Full.Name), "false", lib.Nat(engineFlaky(p.Full)), lib.List(invs), lib.List(obs)),
+					js, fmt.Sprint("h", js), true)
+				c.Hist("e2e", "argument targets")
+				wantSub, wantSubPass, _ := summarise(p.Sub, dev{})
+				wantFull, wantFullPass, _ := summarise(p.Full, dev{})
+				for k, withArgs := range argHistory {
+					r := hist[k][p.Full.Name]
+					where := fmt.Sprintf("invocation %d of %v (true = with an argument)", k+1, argHistory)
+					if withArgs {
+						// a run restricted by arguments reports the selected cases, and is never answered from stored results
+						c.Oracle()
+						if r.cached {
+							c.Fail("argument-run-served-from-stored-results", fmt.Sprintf("%s: target %s was reported [cached] although arguments were given", where, p.Full.Name), js)
+						}
+						judge(c, where, p.Sub, r.n, r.passed)
+						continue
+					}
+					// without arguments: the complete test, whatever was run with arguments before
+					c.Oracle()
+					if r.cached {
+						nargCached++
+					}
+					if r.n == wantFull && r.passed == wantFullPass {
+						continue
+					}
+					if r.n == wantSub && r.passed == wantSubPass {
+						c.Fail("argument-run-results-reported-for-complete-test", fmt.Sprintf("%s: target %s run WITHOUT arguments reported tests/passed/flakes/failed/errored/skipped=%v passing=%v cached=%v: that is the outcome set of the earlier run restricted by an argument; the complete test writes %v passing=%v",
+							where, p.Full.Name, r.n, r.passed, r.cached, wantFull, wantFullPass), js)
+						continue
+					}
+					judgeSecond(c, p.Full, r.n, r.passed, r.cached, js)
+				}
+			}
+			c.Note("args: %d gentest targets (3 forced) run by `plz test //a:all sub`, `plz test //a:all`, and both again; %d reports without arguments came from stored results",
+				len(pairs), nargCached)
+			c.Note("e2e: %d gentest targets (11 forced: colliding pairs, retry, no results file, go output, results directory, flaky = 256, unfinished go case, empty results file / empty shard) run by `plz test //t:all --detailed` TWICE in one repository; %d were reported [cached] by the second invocation",
 				len(scs), ncached)
 		} else {
 			c.Note("e2e: VERIF_PLZ not set, skipped")
